@@ -31,6 +31,9 @@ def heavy_letters(pal):
         "ILh": ("ILoad", dict(ii=1.0)),
         "PLh": ("PLoad", dict(pwr=_r(3.0 * V))),
         "ROh": ("RLoad", dict(rs=_r(0.01 * V))),
+        # loads whose NOMINAL value is an overload but whose configured phase / sleep values are light (liveness with phases)
+        "ILp": ("ILoad", dict(ii=1.0, iis=_r(1e-4 * ki))),
+        "PLp": ("PLoad", dict(pwr=_r(3.0 * V), pwrs=_r(1e-4 * kv * ki))),
     }
 
 
@@ -172,7 +175,7 @@ def check_case(case):
         outs.add(run_one(res, spec, None, None, None, "settings"))
         res.nontrivial = 1
         return res
-    extra = heavy_letters(case["pal"]) if fam == "over" else None
+    extra = heavy_letters(case["pal"]) if fam in ("over", "livep") else None
     spec = spec_from_forest(case["f"], case["pal"], case["pol"], case["srs"], extra=extra)
     if case.get("who"):
         spec = with_phases(spec, PH2, {case["who"]: case["pc"]})
@@ -185,6 +188,28 @@ def check_case(case):
     elif fam == "over":
         o = run_one(res, spec, None, None, None, "over", holes=case.get("holes"))
         res.nontrivial = 1 if o in ("RuntimeError", "Unstable") else 0
+    elif fam == "livep":
+        # every PHASE has a modest-drop steady state (the loads' nominal values, which no phase uses, would be an overload)
+        P = PALETTES[case["pal"]]
+        assign = {}
+        for c in spec["comps"]:
+            if c["n"].startswith("ILp"):
+                assign[c["n"]] = {"a": _r(0.004 * P["ki"])}
+            elif c["n"].startswith("PLp"):
+                assign[c["n"]] = {"a": _r(0.004 * P["ki"] * P["V"])}
+        spec = with_phases(spec, PH2, assign)
+        ok = True
+        for ph in PH2:
+            v, i, io, conv, maxdrop = refsolve(spec, ph)
+            ok = ok and conv and maxdrop <= 0.2 and all(math.isfinite(x) for x in v.values())
+        if ok:
+            res.stats["modest-phased"] += 1
+            o = run_one(res, spec, None, None, None, "livep")
+            if o != "table":
+                res.v(("C03.liveness", o, "phased"), "every phase has a reference steady state with modest drops (loads are light in every phase) but solve() -> %s" % o)
+            res.nontrivial = 1
+        else:
+            res.classes.add("livep:not-modest")
     elif fam == "live":
         v, i, io, conv, maxdrop = refsolve(spec)
         if conv and maxdrop <= 0.2 and all(math.isfinite(x) for x in v.values()):
@@ -260,7 +285,19 @@ def gen_cases(tier):
             for f in over.iter_forests(n):
                 for pol, srs in ((1, 0.0), (1, _r(2.0 * PALETTES[pal]["V"])), (-1, 0.0), (-1, 0.37)):
                     yield dict(fam="over", f=f, pal=pal, pol=pol, srs=srs)
+        # drop tables written with negative values: a passive element must not amplify
+        from ..sysmodel import SIG_NEGTAB
+        for n in (1, 2, 3):
+            for f in Trees(*SIG_NEGTAB).iter_forests(n):
+                if "m" in str(f):
+                    for pol in (1, -1):
+                        yield dict(fam="live", f=f, pal=pal, pol=pol, srs=0.0)
         # C liveness
+        livep = Trees(["RLh", "PSh", "MXh", "RMh", "RL", "CVc", "LRc"], ["ILp", "PLp", "IL"], max_one=("MXh",))
+        for n in ((1, 2, 3) if tier == "quick" else (1, 2, 3, 4)):
+            for f in livep.iter_forests(n):
+                if "ILp" in str(f) or "PLp" in str(f):
+                    yield dict(fam="livep", f=f, pal=pal, pol=1, srs=0.0)
         for n in ((1, 2, 3) if tier == "quick" or pal != sd % 3 else (1, 2, 3, 4)):
             for f in mid.iter_forests(n):
                 yield dict(fam="live", f=f, pal=pal, pol=1, srs=0.37)
@@ -282,6 +319,7 @@ def main(tier):
     for c in ("settings:RuntimeError", "settings:table", "over:table", "live:table"):
         run.require(c in run.classes, "outcome class %s never observed" % c)
     run.require(run.stats["modest"] > 100, "liveness family empty")
+    run.require(run.stats["modest-phased"] > 100, "phased liveness family empty")
     return run.finish(
         rule="A: trees (mid alphabet n<=2/3, deep alphabet n=3/4, chains to depth 5/7; mid n=2/3 with two phases and one component configured for the first phase only) x 4 tolerance pairs x 7 maxiter values; "
              "B: every tree n<=3/4 over an overload alphabet (series elements with 2V/A, heavy I/P/R loads) x source rs in {0, 2V/A} x polarity; "
